@@ -413,6 +413,38 @@ pub fn cases(tier: &str, seed: u64) -> Vec<Case> {
             v.push(parse_case(&b, "mutated"));
         }
     }
+    // fields that mean different things to different record types: the CLASS word of an OPT record is a payload size
+    // (every 16-bit value), records of any type may come with RDLENGTH 0, in any class word, in any section
+    {
+        let mut k = 0u32;
+        for size in 0..=65535u16 {
+            // without options and with one
+            for with_option in [false, true] {
+                if with_option && size % 16 != 0 && !(250..260).contains(&size) { continue; }
+                let mut b = vec![0u8, 1, 0, 0, 0, 0, 0, 0, 0, 0, 0, 1, 0, 0, 41];
+                b.extend_from_slice(&size.to_be_bytes());
+                b.extend_from_slice(&[0, 0, 0, 0]);
+                if with_option { b.extend_from_slice(&[0, 6, 0, 10, 0, 2, 7, 7]); } else { b.extend_from_slice(&[0, 0]); }
+                let mut c = parse_case(&b, "opt-payload-size");
+                k += 1;
+                if size > 600 && k % 11 != 0 { c.proj = Proj::None; c.op = String::new(); }
+                v.push(c);
+            }
+        }
+        let types: Vec<u16> = crate::gen::TYPE_CODES.iter().cloned().chain([0u16, 10, 41, 99, 250, 251, 252, 253, 254, 255, 256, 32768, 65535]).collect();
+        for ty in &types {
+            for class in [0u16, 1, 2, 3, 4, 5, 253, 254, 255, 256, 0x8001, 0x80FE, 0x80FF, 0xFFFF] {
+                for section in 1..4usize {
+                    let mut b = vec![0u8, 1, 0x80, 0, 0, 0, 0, 0, 0, 0, 0, 0, 1, b'e', 0];
+                    b[5 + 2 * section] = 1;
+                    b.extend_from_slice(&ty.to_be_bytes());
+                    b.extend_from_slice(&class.to_be_bytes());
+                    b.extend_from_slice(&[0, 0, 0, 1, 0, 0]);
+                    v.push(parse_case(&b, "empty-rdata-grid"));
+                }
+            }
+        }
+    }
     // stack: the work per message is bounded in stack depth too. A parser that descends once per compression pointer
     // or per label needs a frame for each of up to ~8000 hops; on a service thread (tokio workers, spawned threads with
     // a small stack) that is a crash of the whole process, which no catch_unwind sees. The deep messages above and a
